@@ -35,6 +35,41 @@ def finite_weights(est) -> bool:
     return chk(est)
 
 
+class ActivationSpy:
+    """wraps `category_choice` / `match_criterion` of every module reachable from an estimator (and the
+    estimator itself) and remembers the first non-finite value any of them returned"""
+
+    def __init__(self, est):
+        self.bad = []
+        seen = set()
+
+        def walk(o):
+            if id(o) in seen or not hasattr(o, "__dict__"):
+                return
+            seen.add(id(o))
+            for fn in ("category_choice", "match_criterion"):
+                orig = getattr(o, fn, None)
+                if callable(orig) and fn not in o.__dict__:
+                    def w(*a, _orig=orig, _n=f"{type(o).__name__}.{fn}", **k):
+                        out = _orig(*a, **k)
+                        try:
+                            ok = bool(np.all(np.isfinite(np.asarray(out[0], dtype=float))))
+                        except Exception:
+                            ok = True
+                        if not ok and len(self.bad) < 4:
+                            self.bad.append((_n, repr(out[0])))
+                        return out
+                    o.__dict__[fn] = w
+            for name in ("module_a", "module_b", "base_module", "fusion_art"):
+                if name in o.__dict__:
+                    walk(o.__dict__[name])
+            for m in o.__dict__.get("modules", []) or []:
+                walk(m)
+            for m in o.__dict__.get("layers", []) or []:
+                walk(m)
+        walk(est)
+
+
 def extreme(r, fam):
     """push hyper-parameters to legal extremes"""
     def tweak(spec):
@@ -71,6 +106,7 @@ def run(ctx):
         name = names[i % len(names)]
         n = r.randint(2, nmax)
         fam, rows = families.build(r, name, n, floats=r.random() < 0.3)
+        n = len(rows)
         boundary = False
         if r.random() < 0.35:
             extreme(r, fam)
@@ -93,6 +129,7 @@ def run(ctx):
             continue
         parts = gen.compositions(r, n)
         stage = "fit"
+        spy = ActivationSpy(est)
         try:
             with np.errstate(all="ignore"):
                 if fam.has_pfit and (not fam.has_fit or r.random() < 0.5):
@@ -116,6 +153,9 @@ def run(ctx):
                             cen = target.get_cluster_centers()
                         if not all(np.all(np.isfinite(np.asarray(c, dtype=float))) for c in cen):
                             ctx.issue("violation", f"{name}:non-finite-centre", "NaN/inf in get_cluster_centers()", dict(desc, partition=parts))
+            if spy.bad:
+                ctx.issue("violation", f"{name}:non-finite-activation-or-match:{spy.bad[0][0]}",
+                          f"non-finite value returned during training or prediction: {spy.bad[:2]}", dict(desc, partition=parts))
         except Exception as e:
             sig = f"{name}.{stage}:{exc_enum(e)}"
             if name == "TopoART" and stage == "predict" and len(est.W) == 0:
@@ -241,6 +281,7 @@ def multi_epoch(ctx):
         name = names[i % len(names)]
         n = r.randint(2, 12)
         fam, rows = families.build(r, name, n)
+        n = len(rows)
         k = r.choice([2, 3])
         desc = dict(fam.describe(), rows=rows.tolist(), max_iter=k)
         est = fam.make()
